@@ -85,4 +85,24 @@ VARIANTS = [
     V("C07", "inferred type not collected", VIS, "                        type_ = mypy_expression_to_sds_type(return_stmt.expr)\n                        if isinstance(type_, sds_types.NamedType | sds_types.TupleType):\n                            types.add(type_)", "                        type_ = mypy_expression_to_sds_type(return_stmt.expr)\n                        if isinstance(type_, sds_types.NamedType):\n                            types.add(type_)", "C07.INFER-COLLECT"),
     V("C07", "unparse round trip", VIS, "<<unparse>>", "", None),
     V("C07", "benign: while/for split", MH, "        elif isinstance(stmt, mp_nodes.WhileStmt | mp_nodes.ForStmt):", "        elif isinstance(stmt, (mp_nodes.WhileStmt, mp_nodes.ForStmt)):", None),
+    # ------------------------------------------------------------------ C14
+    V("C14", "skip override when warnings ignored", VIS, "            if doc_type is not None and (\n                code_type is None or self.type_source_preference == TypeSourcePreference.DOCSTRING\n            ):", "            if doc_type is not None and self.type_source_warning == TypeSourceWarning.WARN and (\n                code_type is None or self.type_source_preference == TypeSourcePreference.DOCSTRING\n            ):", "C14."),
+    V("C14", "prefer docstring under CODE", VIS, "code_type is None or self.type_source_preference == TypeSourcePreference.DOCSTRING", "code_type is None or self.type_source_preference == TypeSourcePreference.CODE", "C14.DECISION"),
+    V("C14", "result compares object", VIS, "and result_type.type != result_doc_type", "and result_type != result_doc_type", "C14.DECISION"),
+    V("C14", "warn only for identical", VIS, "                and code_type != doc_type\n", "                and code_type == doc_type\n", "C14.DECISION"),
+    V("C14", "preference consulted for names", VIS, "            result_name = result_docstrings[0].name or next(name_generator)", "            result_name = (result_docstrings[0].name if self.type_source_preference == TypeSourcePreference.DOCSTRING else \"\") or next(name_generator)", "C14.PREF-SLICE"),
+    V("C14", "result override under CODE", VIS, "                elif self.type_source_preference == TypeSourcePreference.DOCSTRING:\n                    # Overwrite", "                elif self.type_source_preference == TypeSourcePreference.CODE:\n                    # Overwrite", "C14.DECISION"),
+    V("C14", "warning block mutates", VIS, "                msg = f\"Different type hint and docstring types for '{function_id}'.\"\n                logging.warning(msg)", "                msg = f\"Different type hint and docstring types for '{function_id}'.\"\n                logging.warning(msg)\n                parameters[i] = dataclasses.replace(parameter, type=None)", "C14."),
+    V("C14", "unparse round trip", VIS, "<<unparse>>", "", None),
+    # ------------------------------------------------------------------ C15
+    V("C15", "add testing", GA, '"docs" in file_path.parts', '"docs" in file_path.parts or "testing" in file_path.parts', "C15.EXCLUDE-TABLE"),
+    V("C15", "substring test", GA, '"test" in file_path.parts', '"test" in str(file_path)', "C15.EXCLUDE-TABLE"),
+    V("C15", "docs not excluded", GA, ' or "docs" in file_path.parts', "", "C15.EXCLUDE-TABLE"),
+    V("C15", "filter only modules", GA, '        # Check if the current path is a test directory\n        if not is_test_run and ("test" in file_path.parts or "tests" in file_path.parts or "docs" in file_path.parts):\n            log_msg = f"Skipping test file in {file_path}"\n            logging.info(log_msg)\n            continue\n\n        # Check if the current file is an init file\n        if file_path.parts[-1] == "__init__.py":\n            # if a directory contains an __init__.py file it\'s a package\n            package_paths.append(\n                str(file_path.parent),\n            )\n            continue\n',
+      '        # Check if the current file is an init file\n        if file_path.parts[-1] == "__init__.py":\n            # if a directory contains an __init__.py file it\'s a package\n            package_paths.append(\n                str(file_path.parent),\n            )\n            continue\n\n        # Check if the current path is a test directory\n        if not is_test_run and ("test" in file_path.parts or "tests" in file_path.parts or "docs" in file_path.parts):\n            log_msg = f"Skipping test file in {file_path}"\n            logging.info(log_msg)\n            continue\n', "C15.EXCLUDE-TABLE"),
+    V("C15", "non recursive glob", GA, 'root.glob(pattern="./**/*.py")', 'root.glob(pattern="./*.py")', "C15.GLOB"),
+    V("C15", "flag consulted in walker loop", GA, "    for tree in mypy_asts:\n        walker.walk(tree=tree)", "    for tree in mypy_asts:\n        if is_test_run or \"conftest\" not in tree.path:\n            walker.walk(tree=tree)", "C15.FLAG-SLICE"),
+    V("C15", "all init asts taken", GA, "            if ast_package_path in package_paths:\n                package_ast.append(ast)", "            package_ast.append(ast)", "C15.AST-FILTER"),
+    V("C15", "unparse round trip", GA, "<<unparse>>", "", None),
+    V("C15", "benign: set membership", GA, '("test" in file_path.parts or "tests" in file_path.parts or "docs" in file_path.parts)', '(not {"test", "tests", "docs"}.isdisjoint(file_path.parts))', None),
 ]
